@@ -292,7 +292,7 @@ def _layout_ok(sz, al):
 def _heap_invariant(ex, p):
     size, es, al = _heap_inputs(ex, p)
     prod = "(bvmul %s %s)" % (zx(es), zx(size))
-    return [("alignment is non-zero and at most 2^29", AND("(not (= %s %s))" % (al, bvconst(0)), "(bvule %s %s)" % (al, bvconst(1 << 29)))),
+    return [("alignment is a power of two, at most 2^29 (Layout invariant)", AND("(not (= %s %s))" % (al, bvconst(0)), "(= (bvand %s (bvsub %s %s)) %s)" % (al, al, bvconst(1), bvconst(0)), "(bvule %s %s)" % (al, bvconst(1 << 29)))),
             ("the current block (capacity x element size) is a valid layout", OR("(= %s %s)" % (es, bvconst(0)), "(bvule %s %s)" % (prod, zx("(bvsub %s (bvsub %s %s))" % (ISIZE_MAX(), al, bvconst(1))))))]
 
 
